@@ -449,7 +449,61 @@ fn check<F: Fam>(rep: &mut Report, m: &Malformed, from: &str) {
     }
 }
 
+/// v5 property malformations over their WHOLE finite domain, on hand-built minimal frames: at each of
+/// the 14 property-carrying positions, every identifier the standard allows there twice (same value,
+/// and two different values; the user property may repeat, and PUBLISH's Subscription Identifier is
+/// known finding K1), and every identifier of the standard that does not belong there.
+pub fn property_domain() -> Vec<(Malformed, String)> {
+    use crate::tables::{host_frame, std_property, PROP_HOSTS};
+    let allowed = |host: &str| -> &'static [u8] {
+        match host {
+            "connect" => &[0x11, 0x15, 0x16, 0x17, 0x19, 0x21, 0x22, 0x27],
+            "will" => &[0x01, 0x02, 0x03, 0x08, 0x09, 0x18],
+            "connack" => &[0x11, 0x12, 0x13, 0x15, 0x16, 0x1a, 0x1c, 0x1f, 0x21, 0x22, 0x24, 0x25, 0x27, 0x28, 0x29, 0x2a],
+            "publish" => &[0x01, 0x02, 0x03, 0x08, 0x09, 0x0b, 0x23],
+            "puback" | "pubrec" | "pubrel" | "pubcomp" | "suback" | "unsuback" => &[0x1f],
+            "subscribe" => &[0x0b],
+            "unsubscribe" => &[],
+            "disconnect" => &[0x11, 0x1c, 0x1f],
+            _ => &[0x15, 0x16, 0x1f],
+        }
+    };
+    let mut out = Vec::new();
+    for host in PROP_HOSTS {
+        let t = host_frame(host, &[])[0] >> 4;
+        for id in 0..=255u8 {
+            let one = match std_property(id) {
+                Some(p) if id != 0x26 => p,
+                _ => continue,
+            };
+            let mut other = one.clone();
+            *other.last_mut().unwrap() ^= 0x02; // a different well-formed value of the same wire type
+            if allowed(host).contains(&id) {
+                if host == "publish" && id == 0x0b {
+                    continue;
+                }
+                for (tag, second) in [("same value", &one), ("different value", &other)] {
+                    let frame = host_frame(host, &[&one[..], &second[..]].concat());
+                    out.push((
+                        Malformed { kind: "duplicated-property-domain", frame, expect: format!("DuplicatedProperty({})", id), poll_only: false, past_frame: false },
+                        format!("{} with property {} twice ({})", host, id, tag),
+                    ));
+                }
+            } else {
+                let expect = if host == "will" { format!("InvalidWillProperty({})", id) } else { format!("InvalidProperty({},{})", t, id) };
+                out.push((Malformed { kind: "disallowed-property-domain", frame: host_frame(host, &one), expect, poll_only: false, past_frame: false }, format!("{} with foreign property {}", host, id)));
+            }
+        }
+    }
+    out
+}
+
 pub fn run<F: Fam>(rep: &mut Report, tier: &str, seed: u64, ops: Option<&[String]>) {
+    if F::NAME == "v5" && ops.is_none() {
+        for (m, from) in property_domain() {
+            check::<F>(rep, &m, &from);
+        }
+    }
     let n = if tier == "thorough" { 20000 } else { 2500 };
     let inp = crate::poracle::inputs::<F>(tier, seed, ops, n, n, false);
     let mut rng = Rng::new(seed ^ 0x2020);
@@ -467,6 +521,14 @@ pub fn stream<F: Fam>(tier: &str, seed: u64) -> Vec<String> {
     let n = if tier == "thorough" { 6000 } else { 800 };
     let mut rng = Rng::new(seed ^ 0x2021);
     let mut out = Vec::new();
+    if F::NAME == "v5" {
+        for (m, _) in property_domain() {
+            let h = hex(&m.frame);
+            out.push(format!("dec v5 {}", h));
+            out.push(format!("deca v5 {} eof", h));
+            out.push(format!("poll v5 {} - eof", h));
+        }
+    }
     for i in 0..n {
         let p = F::gen(&mut rng, i, Sizes { big: false });
         for m in malformations::<F>(&p, &mut rng) {
